@@ -24,18 +24,16 @@ Local Open Scope nat_scope.
 
 (* Is the snapshot of the resolver map taken inside the indexLock section that also writes
    the file?  Read off the source on every run: Generated.GC07.calls_saveIndex is the
-   source-order sequence of the calls s.indexLock.Lock / s.tagResolver.Map /
-   s.writeIndexFile in Store.saveIndex (translator kind "callseq").  Atomic iff the lock is
-   taken first and the write follows the snapshot. *)
-Fixpoint occurs (x : str) (l : list str) : bool :=
-  match l with [] => false | y :: r => str_eqb x y || occurs x r end.
-Fixpoint after (x y : str) (l : list str) : bool :=   (* y occurs after an occurrence of x *)
-  match l with [] => false | z :: r => (str_eqb x z && occurs y r) || after x y r end.
+   source-order sequence of the calls s.indexLock.Lock / s.indexLock.Unlock /
+   s.tagResolver.Map / s.writeIndexFile in Store.saveIndex (translator kind "callseq"). *)
+(* exactly: Lock, (deferred) Unlock, snapshot, write -- the Unlock call directly after the
+   Lock in source order is the `defer`; an explicit Unlock between snapshot and write, a
+   second Lock, a snapshot before the Lock all give another sequence *)
 Definition atomic_calls (l : list str) : bool :=
   match l with
-  | a :: r => str_eqb a (b "s.indexLock.Lock") && after (b "s.tagResolver.Map") (b "s.writeIndexFile") r
-              && negb (occurs (b "s.indexLock.Lock") r)
-  | [] => false
+  | [a; u; m; w] => str_eqb a (b "s.indexLock.Lock") && str_eqb u (b "s.indexLock.Unlock")
+                    && str_eqb m (b "s.tagResolver.Map") && str_eqb w (b "s.writeIndexFile")
+  | _ => false
   end.
 Definition save_index_atomic : bool := atomic_calls calls_saveIndex.
 
